@@ -220,6 +220,9 @@ def run(ctx):
         # held-out scoring in several prediction chunks (the default chunk holds 700000 rows)
         extra.append({"seed": ctx.seed * 100000 + 850000 + r, "n": 1500, "pi0": 0.5, "sep": [2.0, 3.0][r % 2], "folds": 2 + r % 3,
                       "est": "memo", "pred_chunk": [170, 333, 700][r % 3], "group": "memo+chunks"})
+        # ... and in tiny chunks, most of which hold no PSM of some fold (the model of a fold is found by fold, not by position)
+        extra.append({"seed": ctx.seed * 100000 + 870000 + r, "n": 900, "pi0": 0.5, "sep": [2.0, 3.0][r % 2], "folds": 3 + r % 2,
+                      "est": "memo", "pred_chunk": [2, 3][r % 2], "group": "memo+tinychunks"})
     specs += extra
     nleak = 6
     for r in range(nleak):     # instrument check: with leaky training sets the memoriser must break the bound
@@ -235,7 +238,7 @@ def run(ctx):
     # ---- FdrTrace groups: (learner, level, alpha) over replicates
     traces, meta = [], []
     failed_runs = sum(1 for s, r in zip(specs, res) if r["raised"])
-    for est in learners + ["memo+cap", "paired-ties/feat", "paired-ties/tree", "paired-target-first", "memo+2files", "memo+reseed", "memo+reversed", "memo+chunks", "memo+leak"]:      # one group per learner: a mixture of learners would inflate the SE
+    for est in learners + ["memo+cap", "paired-ties/feat", "paired-ties/tree", "paired-target-first", "memo+2files", "memo+reseed", "memo+reversed", "memo+chunks", "memo+tinychunks", "memo+leak"]:      # one group per learner: a mixture of learners would inflate the SE
         sel = [r for s, r in zip(specs, res) if (s.get("group") or (s["est"] + ("+leak" if s.get("leak") else ""))) == est and not r["raised"]]
         if len(sel) < 2:
             continue
